@@ -102,6 +102,12 @@ func (s *expStepBStructure) commitmentsFromProof(g zkproof.Group, list []*big.In
 	// inner proof
 	proof.Bit.setName(strings.Join([]string{s.bitname, "hider"}, "_"))
 	proof.Mul.setName(s.mulname)
+	// The multiplier of this step is the value committed to under mulname by the surrounding proof, not whatever
+	// commitment the step's own Pedersen proof carries: knowledge of an opening is checked against that commitment
+	// (an honest proof duplicates it, so nothing changes for it; a different one made the step prove nothing)
+	if c := bases.Base(s.mulname); c != nil {
+		proof.Mul.Commit = c
+	}
 	proofs := zkproof.NewProofMerge(&proof.Bit, &proof.Mul)
 
 	// Generate commitments
